@@ -42,29 +42,44 @@ fn wal_flush(log: &Log, batch: &[Arc<PendingCommit>], wfail: Option<usize>) -> R
 }
 
 /// the caller protocol of execute_small_commit (from the point where the payload was captured)
+///
+/// Built with `--cfg c37_fixed` (against a tree that has fixes/C37-take-pending-only-as-leader.diff
+/// applied) it is the copy of the REPAIRED protocol instead, and the cases say so (`Case true ..`).
 fn commit(q: &GroupCommitQueue, log: &Log, failed: &Mutex<Vec<u64>>, payload: CommitPayload, wfail: Option<usize>) -> Result<u64, String> {
     sched_point(401);
-    match q.submit_and_wait(payload) {
+    // as in the code: after Ok, take_pending is called unconditionally
+    #[cfg(not(c37_fixed))]
+    let (batch_id, batch) = match q.submit_and_wait(payload) {
         Ok(batch_id) => {
             sched_point(402);
-            if let Some(pending_commits) = q.take_pending() {
-                sched_point(404);
-                let result = wal_flush(log, &pending_commits, wfail);
-                sched_point(403);
-                match &result {
-                    Ok(()) => q.complete_batch(&pending_commits),
-                    Err(e) => {
-                        failed.lock().unwrap().extend(pending_commits.iter().map(|c| c.batch_id));
-                        q.fail_batch(&pending_commits, e);
-                        sched_point(406);
-                    }
-                }
-                result.map_err(|e| format!("flush: {}", e))?;
-            }
-            Ok(batch_id)
+            (batch_id, q.take_pending())
         }
-        Err(e) => Err(format!("group commit failed: {}", e)),
+        Err(e) => return Err(format!("group commit failed: {}", e)),
+    };
+    // the repair: only the elected leader calls take_pending
+    #[cfg(c37_fixed)]
+    let (batch_id, batch) = match q.submit_and_wait_role(payload) {
+        Ok((batch_id, is_leader)) => {
+            sched_point(402);
+            (batch_id, if is_leader { q.take_pending() } else { None })
+        }
+        Err(e) => return Err(format!("group commit failed: {}", e)),
+    };
+    if let Some(pending_commits) = batch {
+        sched_point(404);
+        let result = wal_flush(log, &pending_commits, wfail);
+        sched_point(403);
+        match &result {
+            Ok(()) => q.complete_batch(&pending_commits),
+            Err(e) => {
+                failed.lock().unwrap().extend(pending_commits.iter().map(|c| c.batch_id));
+                q.fail_batch(&pending_commits, e);
+                sched_point(406);
+            }
+        }
+        result.map_err(|e| format!("flush: {}", e))?;
     }
+    Ok(batch_id)
 }
 
 #[derive(Clone, Debug, Default)]
@@ -335,7 +350,7 @@ fn case_term(progs: &[Vec<Op>], o: &Obs) -> String {
     let log: Vec<String> = o.log.iter().map(|e| (e.0 + 64 * (e.1 as u64 + 8 * e.2 as u64)).to_string()).collect();
     let res: Vec<String> = o.results.iter().map(|rs| clist(&rs.iter().map(|r| (r.0 as u64 + 8 * (r.1 as u64 + 8 * (r.2 + 64 * r.3 as u64))).to_string()).collect::<Vec<_>>())).collect();
     let failed: Vec<String> = o.failed.iter().map(|x| x.to_string()).collect();
-    format!("Case {} {} {} {} {} {} {}", clist(&ps), clist(&steps), clist(&log), clist(&res), clist(&failed), cbool(o.drained), o.probe)
+    format!("Case {} {} {} {} {} {} {} {}", cbool(cfg!(c37_fixed)), clist(&ps), clist(&steps), clist(&log), clist(&res), clist(&failed), cbool(o.drained), o.probe)
 }
 
 fn kind_of(base: &str, o: &Obs) -> String {
